@@ -119,10 +119,13 @@ def tryExcept (a : Blk σ R) (h : Exc → Option (Blk σ R)) (orelse : Blk σ R)
     through, `return v`, or its exception) stands; when `F` itself raises or returns, that replaces it -/
 def tryFinally (a f : Blk σ R) : Blk σ R := fun s =>
   match a s with
-  | (r, s1) =>
-    (match f s1 with
-     | (.ok none, s2) => (r, s2)
-     | r2 => r2)
+  | (.error e, s1) => tryFinally.after (.error e) (f s1)
+  | (.ok v, s1) => tryFinally.after (.ok v) (f s1)
+where
+  /-- `r`: the outcome of the protected block; then the outcome of the `finally` clause decides -/
+  after (r : Except Exc (Option R)) : Except Exc (Option R) × σ → Except Exc (Option R) × σ
+    | (.ok none, s2) => (r, s2)
+    | r2 => r2
 
 /-- the value of a function body: falling off the end is `return None` -/
 def result [Inhabited R] : Except Exc (Option R) → Except Exc R
@@ -132,15 +135,20 @@ def result [Inhabited R] : Except Exc (Option R) → Except Exc R
 
 end Blk
 
+/-- what a method call leaves: the value (falling off the end = `return None`), the object state, the world -/
+def finishMethod {S L W R : Type} [Inhabited R] (x : Except Exc (Option R) × Fr S L W) : Except Exc R × S × W :=
+  (Blk.result x.1, x.2.self, x.2.w)
+
 /-- run a method body: frame from the object state, fresh locals and the world -/
 def runMethod {S L W R : Type} [Inhabited R] (body : Blk (Fr S L W) R) (self : S) (loc : L) (w : W) :
     Except Exc R × S × W :=
-  let r := body ⟨self, loc, w⟩
-  (Blk.result r.1, r.2.self, r.2.w)
+  finishMethod (body ⟨self, loc, w⟩)
+
+def finishFunction {L W R : Type} [Inhabited R] (x : Except Exc (Option R) × Fr Unit L W) : Except Exc R × W :=
+  (Blk.result x.1, x.2.w)
 
 /-- run the body of a module-level function (no object) -/
 def runFunction {L W R : Type} [Inhabited R] (body : Blk (Fr Unit L W) R) (loc : L) (w : W) : Except Exc R × W :=
-  let r := body ⟨(), loc, w⟩
-  (Blk.result r.1, r.2.w)
+  finishFunction (body ⟨(), loc, w⟩)
 
 end PyRtC05
